@@ -18,6 +18,8 @@ import vf
 from vf import build as B
 
 W = int(os.environ.get("VERIF_WORKERS", "16"))
+# where evidence and newly found replays are written (redirected when checks are run against scratch copies / mutants)
+OUT_DIR = os.environ.get("VERIF_OUT", vf.VERIF_DIR)
 
 
 class SubCheck(object):
@@ -41,6 +43,7 @@ class SubCheck(object):
         self.exhaustive = exhaustive
         self.is_spec = is_spec        # case is a NetSpec (spec-level reducer applies)
         self.machine = None           # callable(body) -> RuleBasedStateMachine subclass (stateful generation of histories)
+        self.custom = None            # callable(pid, tier, seed, deadline) -> accumulator (run once in the parent, e.g. fuzz campaigns)
 
 
 def _digest(case):
@@ -62,6 +65,8 @@ def _worker_inner(pid, tier, seed, w, nw, deadline):
     prop = importlib.import_module("vf.props." + pid)
     out = {}
     for sc in prop.subchecks(tier):
+        if sc.custom is not None:
+            continue
         acc = {"evaluations": 0, "nontrivial": set(), "classes": Counter(), "violations": [], "aborted": Counter(),
                "budget_hit": 0, "samples": [], "best": None, "skipped_deadline": 0, "events": 0,
                "pairs": set(), "abort_examples": {}}
@@ -203,6 +208,16 @@ def run(pid, tier):
             print("HARNESS-ERROR property=%s" % pid)
             return 2
 
+    customs = {}
+    for sc in scs:
+        if sc.custom is not None:
+            a = sc.custom(pid, tier, seed, deadline)
+            a["nontrivial"] = list(a["nontrivial"])
+            customs[sc.name] = a
+    for r in results:
+        r.update(customs) if r is results[0] else r.update({k: {"evaluations": 0, "nontrivial": [], "classes": {}, "violations": [], "aborted": {},
+                                                                 "budget_hit": 0, "samples": [], "best": None, "skipped_deadline": 0, "events": 0,
+                                                                 "pairs": [], "abort_examples": {}} for k in customs})
     merged = {}
     for sc in scs:
         m = {"evaluations": 0, "nontrivial": set(), "classes": Counter(), "violations": [], "aborted": Counter(),
@@ -253,14 +268,14 @@ def run(pid, tier):
                 case, v = R.reduce_case(sc, case, v, max_runs=150 if tier == "quick" else 400)
             except Exception:
                 sys.stderr.write("reducer failed:\n" + traceback.format_exc())
-        rdir = os.path.join(vf.VERIF_DIR, "replays", pid)
+        rdir = os.path.join(OUT_DIR, "replays", pid)
         os.makedirs(rdir, exist_ok=True)
         name = ("%s__%s__%s.json" % (scname, clause, site)).replace("/", "_").replace(" ", "_").replace("|", "-")
         path = os.path.join(rdir, name)
         json.dump({"property": pid, "subcheck": scname, "clause": clause, "site": site, "details": v.get("details"),
                    "case": case, "count_in_run": len(items), "seed": seed, "tier": tier},
                   open(path, "w"), indent=1, sort_keys=True, default=repr)
-        violations_out.append((clause, site, os.path.relpath(path, vf.VERIF_DIR), json.dumps(v.get("details"), default=repr)[:300]))
+        violations_out.append((clause, site, os.path.relpath(path, OUT_DIR), json.dumps(v.get("details"), default=repr)[:300]))
 
     # 4. evidence
     evals = sum(m["evaluations"] for m in merged.values()) + regress
@@ -302,8 +317,8 @@ def run(pid, tier):
         "wall_s": round(time.time() - t0, 2),
         "violations": len(violations_out),
     }
-    os.makedirs(os.path.join(vf.VERIF_DIR, "evidence"), exist_ok=True)
-    json.dump(ev, open(os.path.join(vf.VERIF_DIR, "evidence", pid + ".json"), "w"), indent=1, sort_keys=True, default=repr)
+    os.makedirs(os.path.join(OUT_DIR, "evidence"), exist_ok=True)
+    json.dump(ev, open(os.path.join(OUT_DIR, "evidence", pid + ".json"), "w"), indent=1, sort_keys=True, default=repr)
 
     for line in known_lines:
         print(line)
